@@ -229,3 +229,69 @@ Proof.
   unfold pay. replace (tot <? 0) with false by (symmetry; apply Z.ltb_ge; exact Hn).
   destruct (bget (c_bank s) creator <? tot); split; intros H; try reflexivity; discriminate.
 Qed.
+
+(* ---- x/subaccount/keeper/hooks.go: the four order-book hooks, generated as functions on (the account summary stored for the address and
+   whether there is one, whether the owner record exists, the bank balances of the subaccount and of its owner); a panic is None.
+   They are what the model's hook_sub does with the subaccount it finds: no subaccount - nothing happens; otherwise Unspend (and AddLoss
+   for a loss), and for a win the guarded transfer of the profit to the owner ------------------------------------------------------------ *)
+Definition hook_state (ex : bool) (x : subacc) (own : bool) (sb ob : Z) : S_subhook :=
+  {| S_subhook_Summary := as_of x; S_subhook_Exists := ex; S_subhook_OwnerFound := own; S_subhook_SubBal := sb; S_subhook_OwnerBal := ob |}.
+
+Lemma gen_AfterHouseWin ex x own sb ob liq profit :
+  K_subhook_AfterHouseWin (hook_state ex x own sb ob) liq profit =
+  if negb ex then Some (hook_state ex x own sb ob) else
+  match sub_unspend x liq with
+  | None => None
+  | Some x' => if negb own then None else if sb <? profit then None else Some (hook_state ex x' own (sb - profit) (ob + profit))
+  end.
+Proof.
+  unfold K_subhook_AfterHouseWin, hook_state. cbn [S_subhook_Summary S_subhook_Exists]. destruct ex; cbn [negb]; [|reflexivity].
+  rewrite gen_Unspend. destruct (sub_unspend x liq) as [x'|]; cbn [option_map]; [|reflexivity].
+  cbn [set_S_subhook_Summary set_S_subhook_SubBal set_S_subhook_OwnerBal S_subhook_Summary S_subhook_Exists S_subhook_OwnerFound S_subhook_SubBal S_subhook_OwnerBal].
+  destruct own; cbn [negb]; [|reflexivity]. destruct (sb <? profit); reflexivity.
+Qed.
+Lemma gen_AfterHouseLoss ex x own sb ob liq lost :
+  K_subhook_AfterHouseLoss (hook_state ex x own sb ob) liq lost =
+  if negb ex then Some (hook_state ex x own sb ob) else
+  match sub_unspend x liq with
+  | None => None
+  | Some y => match sub_addloss y lost with None => None | Some x' => Some (hook_state ex x' own sb ob) end
+  end.
+Proof.
+  unfold K_subhook_AfterHouseLoss, hook_state. cbn [S_subhook_Summary S_subhook_Exists]. destruct ex; cbn [negb]; [|reflexivity].
+  rewrite gen_Unspend. destruct (sub_unspend x liq) as [y|]; cbn [option_map]; [|reflexivity].
+  rewrite gen_AddLoss. destruct (sub_addloss y lost) as [x'|]; cbn [option_map]; reflexivity.
+Qed.
+Lemma gen_AfterHouseRefund ex x own sb ob amt :
+  K_subhook_AfterHouseRefund (hook_state ex x own sb ob) amt =
+  if negb ex then Some (hook_state ex x own sb ob) else
+  match sub_unspend x amt with None => None | Some x' => Some (hook_state ex x' own sb ob) end.
+Proof.
+  unfold K_subhook_AfterHouseRefund, hook_state. cbn [S_subhook_Summary S_subhook_Exists]. destruct ex; cbn [negb]; [|reflexivity].
+  rewrite gen_Unspend. destruct (sub_unspend x amt) as [x'|]; cbn [option_map]; reflexivity.
+Qed.
+Lemma gen_AfterHouseFeeRefund ex x own sb ob fee :
+  K_subhook_AfterHouseFeeRefund (hook_state ex x own sb ob) fee =
+  if negb ex then Some (hook_state ex x own sb ob) else
+  match sub_unspend x fee with None => None | Some x' => Some (hook_state ex x' own sb ob) end.
+Proof.
+  unfold K_subhook_AfterHouseFeeRefund, hook_state. cbn [S_subhook_Summary S_subhook_Exists]. destruct ex; cbn [negb]; [|reflexivity].
+  rewrite gen_Unspend. destruct (sub_unspend x fee) as [x'|]; cbn [option_map]; reflexivity.
+Qed.
+
+(* the model's hook_sub, unfolded for a registered subaccount: the ledger function, then (for a non-zero amount) the guarded transfer of
+   `pay` - the same two steps, with the same refusals, as the generated hooks above *)
+Lemma hook_sub_found b subs a f fwd x : sub_by_addr subs a = Some x ->
+  hook_sub b subs a f fwd =
+  match f x with
+  | None => None
+  | Some x' => if fwd =? 0 then Some (b, set_sub subs x')
+               else if fwd <? 0 then None else if bget b a <? fwd then None
+               else Some (badd (badd b a (- fwd)) (sa_owner x) fwd, set_sub subs x')
+  end.
+Proof.
+  intros E. unfold hook_sub. rewrite E. destruct (f x) as [x'|]; [|reflexivity]. destruct (fwd =? 0); [reflexivity|].
+  unfold pay. destruct (fwd <? 0); [reflexivity|]. destruct (bget b a <? fwd); reflexivity.
+Qed.
+Lemma hook_sub_none b subs a f fwd : sub_by_addr subs a = None -> hook_sub b subs a f fwd = Some (b, subs).
+Proof. intros E. unfold hook_sub. rewrite E. reflexivity. Qed.
